@@ -59,3 +59,11 @@ package time
 //@   nopanic
 //@   ensures err == nil
 //@   ensures (inst(t) < inst(as(yV, Time)) ==> result0 == -1) && (inst(t) == inst(as(yV, Time)) ==> result0 == 0) && (inst(t) > inst(as(yV, Time)) ==> result0 == 1)
+
+// Hash must be a function of the instant only (two equal times in different zones hash alike):
+// the 64-bit UnixNano count folded to 32 bits.
+//@ func Time.Hash
+//@   prop C19 C11
+//@   nopanic
+//@   ensures err == nil
+//@   ensures instant_only: result0 == xor32(wrapu32(unano(inst(t))), wrapu32(div(unano(inst(t)), 4294967296)))
